@@ -53,7 +53,9 @@ CHECKS = {
          "property text (raw bit tests, NoDup block numbers, at-most-once singleton types, payload present, status-report restriction, creation-time-zero "
          "rule) holds; K-val channel on bytes of the Python reference encoder over the rule space with a Python transcription of the rules as oracle. "
          "C07_tie_block_flags / C07_tie_bundle_flags: the flag validations of the compiled crate on every u8 block flag word and every combination of the 14 "
-         "bundle flag bits (tables regenerated from /repo on every run) equal the model's, outside the don't-care masks - kernel-checked over all rows.",
+         "bundle flag bits (tables regenerated from /repo on every run) equal the model's, outside the don't-care masks - kernel-checked over all rows; "
+         "C07_tie_rule_space: Bundle::validate of the compiled crate on EVERY bundle of the block-list part of the property's finite rule space (8 contexts x 27931 "
+         "lists of up to 3 blocks, 223448 rows) accepts exactly when the model does.",
          "bitflags from_bits_truncate/contains semantics modelled; HashSet modelled as list membership.", "DESIGN.md section 6 C07"),
  "C08": ("Coq theorems C08_update_exact / C08_update_total / C08_frame: for every bundle in the decoder's image, every node, every u128 residence time and "
          "every clock reading not before 2000, the transcription of update_extensions returns Ok(false) exactly when hop count+1 > limit, age+residence > "
@@ -63,7 +65,7 @@ CHECKS = {
          "way bundle.rs writes it (block selected by extension_block_by_type_mut, then hop_count_get/_increase/_exceeded, previous_node_update, "
          "bundle_age_get/_update applied in place: Model/Api.v) equals the function those theorems are about; both models answer the same lines (OPS / OPSA). "
          "C08_tie_hop_count: for EVERY (limit, count) in u8 x u8 the compiled crate's hop_count_increase/_exceeded/_get (table regenerated from /repo on every "
-         "run, Gen/Tables.v) equal the model's - kernel-checked over all 65536 rows.",
+         "run, Gen/Tbl_<NAME>.v) equal the model's - kernel-checked over all 65536 rows.",
          "clock >= 2000-01-01 (dtn_time_now); std Duration::as_millis.", "DESIGN.md section 6 C08"),
  "C09": ("Coq theorems C09_unique / C09_unique_from / C09_complete / C09_sequential*: NoDup of returned (time, seq) pairs for every number of threads, calls, "
          "clock readings and every interleaving of the instrumented operations (invariant over the schedule), plus the non-overlapping clause; "
